@@ -93,6 +93,8 @@ import hashlib as _hl
 
 _TZ530 = _dt.timezone(_dt.timedelta(hours=5, minutes=30))
 _TZM8 = _dt.timezone(_dt.timedelta(hours=-8))
+_TZM330 = _dt.timezone(-_dt.timedelta(hours=3, minutes=30))      # negative, not a whole hour
+_TZM030 = _dt.timezone(-_dt.timedelta(minutes=30))
 
 POOLS = {
     "str": {
@@ -111,11 +113,14 @@ POOLS = {
         "t1": [_dt.datetime(2012, 3, 4, 5, 6, 7),
                _dt.datetime(2012, 3, 4, 5, 6, 7, tzinfo=_dt.timezone.utc),
                _dt.datetime(2012, 3, 4, 5, 6, 7, 890000, tzinfo=_TZ530),
-               _dt.datetime(1999, 12, 31, 23, 59, 59, 1)],
+               _dt.datetime(1999, 12, 31, 23, 59, 59, 1),
+               _dt.datetime(2012, 3, 4, 5, 6, 7, tzinfo=_TZM330),
+               _dt.datetime(2012, 3, 4, 0, 10, 7, 120000, tzinfo=_TZM030)],
         "t2": [_dt.datetime(2014, 6, 1, 12, 0, 0),
                _dt.datetime(2014, 6, 1, 12, 0, 0, tzinfo=_TZM8),
                _dt.datetime(2014, 6, 1, 12, 0, 0, 500, tzinfo=_dt.timezone.utc),
-               _dt.datetime(2038, 1, 19, 3, 14, 8)],
+               _dt.datetime(2038, 1, 19, 3, 14, 8),
+               _dt.datetime(2014, 6, 1, 12, 0, 0, tzinfo=_TZM330)],
     },
 }
 
